@@ -66,7 +66,8 @@ type c13Blk struct {
 	Dp         string
 	Delegs     [][2]string // address id, amount
 	Prop       int
-	MaturedIn  []string
+	Chunks     [][][2]string // per reward address: its latest chunks (index, value) before the block
+	Ivs        [][2]int64    // interval records (ri_) before the block
 	PullOk     bool
 	Pull       string
 	ColdOk     bool
@@ -84,6 +85,13 @@ type c13Blk struct {
 	// not in the active table): what the delegators were really credited
 	ObDelegTotal string
 	CheckOnly    []string // transactions only CheckTx'ed at the end of the block (descriptions)
+	ObIdx        []int64  // per vote: index of the chunk that changed in BeginBlock (0 none, -1 several)
+	ObCred       []string // per reward address, after the block: sum of all its chunks
+	ObMat        []string // per reward address, after the block: rwcum balance + withdrawn
+	ObTdist      string
+	// export (RewardMasterStore.DumpState) taken after this block was committed; the chain is then
+	// relaunched from a genesis holding the exported rewards state
+	DumpV, DumpIndex, DumpHeight int64
 }
 
 // one WITHDRAW_REWARD transaction on the real app: amount field as sent (whole OLT), the validator's
@@ -279,6 +287,40 @@ func c13SaveBlock(bs *store.BlockStore, chainID string, h int64, t time.Time) {
 	bs.SaveBlock(blk, ps, &tmtypes.Commit{Height: h, BlockID: tmtypes.BlockID{Hash: blk.Hash(), PartsHeader: ps.Header()}})
 }
 
+// chunks of one reward address in a view: index -> value
+func c13ChunksOf(view map[string]string, addr string) map[int64]string {
+	m := map[int64]string{}
+	pfx := "rwz_" + addr + "_"
+	for k := range view {
+		if strings.HasPrefix(k, pfx) {
+			if i, err := strconv.ParseInt(k[len(pfx):], 10, 64); err == nil {
+				m[i] = c13Amt(view, k)
+			}
+		}
+	}
+	return m
+}
+
+// the real export: RewardMasterStore.DumpState over the committed chain state (what olfullnode
+// save_state does), written and read back as JSON like a genesis file
+func c13Export(rep *Replica, ro *rewards.Options) rewards.RewardMasterState {
+	cs := rep.A.VerifChainState()
+	rw := rewards.NewRewardStore("rwz", "ri", "rwaddr", storage.NewState(cs))
+	cm := rewards.NewRewardCumulativeStore("rwcum", storage.NewState(cs))
+	m := rewards.NewRewardMasterStore(rw, cm)
+	m.SetOptions(ro)
+	cm.Init(rep.BS)
+	st, ok := m.DumpState()
+	if !ok {
+		panic("c13-harness: DumpState failed")
+	}
+	bz, err := json.Marshal(st)
+	must(err)
+	var back rewards.RewardMasterState
+	must(json.Unmarshal(bz, &back))
+	return back
+}
+
 // ---------- whole-app chains ----------
 
 // Replica.Crash copies the data directory while goleveldb may still be compacting in the
@@ -421,8 +463,35 @@ func c13RunChainS(seed int64, idx int, nblocks int, scenario int) c13Chain {
 	if scenario > 0 {
 		delegMode, dtMode, rewardPoolAmt, delegTraffic = 0, 0, "1000000000000000000000000", false
 	}
+	// export / import: the rewards state is exported after block `relaunchAt` (version V) and a NEW chain
+	// is started from a genesis holding it (InitChain -> LoadState); V is a multiple of the reward
+	// interval, one off, or arbitrary.  scenario 3 = the directed witness (interval 5, V = 10).
+	relaunchAt := int64(-1)
+	if scenario == 0 && !c13Honest && r.Intn(3) == 0 {
+		o.Interval = []int64{2, 3, 5, 10}[r.Intn(4)]
+		switch r.Intn(4) {
+		case 0, 1:
+			relaunchAt = int64(1+r.Intn(3)) * o.Interval
+		case 2:
+			relaunchAt = int64(1+r.Intn(3))*o.Interval + int64(r.Intn(3)) - 1
+		default:
+			relaunchAt = int64(2 + r.Intn(14))
+		}
+		delegTraffic = false
+	}
+	if scenario == 3 {
+		o.Interval, relaunchAt = 5, 10
+	}
+	if relaunchAt > 0 {
+		if relaunchAt < 2 {
+			relaunchAt = 2
+		}
+		ch.Opts = o
+		ro = c13RewardOptions(o)
+		nblocks = int(relaunchAt + 4*o.Interval + 6)
+	}
 	activeOLT := map[int]int64{} // user -> OLT delegated by delivered transactions of this run
-	ch.Descr = fmt.Sprintf("scenario=%d delegTraffic=%v ", scenario, delegTraffic) + fmt.Sprintf("vals=%d powMode=%d delegMode=%d dtMode=%d rewardPool=%s", nv, powMode, delegMode, dtMode, rewardPoolAmt)
+	ch.Descr = fmt.Sprintf("scenario=%d delegTraffic=%v relaunchAt=%d ", scenario, delegTraffic, relaunchAt) + fmt.Sprintf("vals=%d powMode=%d delegMode=%d dtMode=%d rewardPool=%s", nv, powMode, delegMode, dtMode, rewardPoolAmt)
 	g.Customize = func(st *consensus.AppState) {
 		st.Governance.RewardOptions = *ro
 		st.Governance.StakingOptions.TopValidatorCount = 8
@@ -458,8 +527,9 @@ func c13RunChainS(seed int64, idx int, nblocks int, scenario int) c13Chain {
 		}
 	}
 	rep := NewReplica(g, ReplicaOpts{NodeVal: w.Vals[0].Val})
-	defer rep.Close()
+	defer func() { rep.Close() }()
 	rep.InitChain()
+	relaunched := false
 
 	ids := &c13Ids{m: map[string]int{}}
 	times := map[int64]time.Time{}
@@ -472,7 +542,10 @@ func c13RunChainS(seed int64, idx int, nblocks int, scenario int) c13Chain {
 		t = t.Add(c13PickDT(r, dtMode))
 		times[h] = t
 		blk := c13Blk{H: h}
-		if scenario == 0 && b > 0 && r.Intn(9) == 0 {
+		if relaunched && h == 1 {
+			blk.Restart = true // a new process: the calculator cache is cold
+		}
+		if scenario == 0 && relaunchAt < 0 && b > 0 && r.Intn(9) == 0 {
 			c13Restart(rep) // process restart from the on-disk data (block boundary)
 			shadow = c13NewSide(ro, rep.BS)
 			blk.Restart = true
@@ -511,8 +584,19 @@ func c13RunChainS(seed int64, idx int, nblocks int, scenario int) c13Chain {
 				delete(in.Absent, i)
 			}
 		}
+		if relaunched && nprev > 1 && h >= 3 {
+			// after the import one validator stops signing, so that everything it earned matures
+			for i := range in.Absent {
+				delete(in.Absent, i)
+			}
+			in.Absent[nprev-1] = true
+		}
 		for i := 0; i < ntx; i++ {
-			switch r.Intn(7) {
+			kind := r.Intn(7)
+			if relaunchAt > 0 {
+				kind = 5 // only reward withdrawals: the validator set stays as in the genesis
+			}
+			switch kind {
 			case 0, 1:
 				v := w.Vals[r.Intn(len(w.Vals))]
 				a := []string{"1", "1500", "50000", "2000000"}[r.Intn(4)]
@@ -624,14 +708,30 @@ func c13RunChainS(seed int64, idx int, nblocks int, scenario int) c13Chain {
 		rep.cur = &BlockResult{Height: h}
 		post := rep.View()
 
-		idx := h/o.Interval + 1
 		blk.Prop = ids.id(keys.Address(proposer).String())
 		for _, v := range votes {
 			a := keys.Address(v.Validator.Address)
 			_, known := post["v_"+string(a.Bytes())]
 			blk.Votes = append(blk.Votes, c13Vote{Addr: ids.id(a.String()), Power: v.Validator.Power, Signed: v.SignedLastBlock, Known: known})
-			k := fmt.Sprintf("rwz_%s_%d", a.String(), idx)
-			blk.ObVals = append(blk.ObVals, c13Sub(c13Amt(post, k), c13Amt(pre, k)))
+			// what the address was credited: the deltas of ALL its chunks, and which chunk changed
+			cpre, cpost := c13ChunksOf(pre, a.String()), c13ChunksOf(post, a.String())
+			delta, changed := big.NewInt(0), int64(0)
+			for i, v := range cpost {
+				old := cpre[i]
+				if old == "" {
+					old = "0"
+				}
+				if d := c13Sub(v, old); d != "0" {
+					delta.Add(delta, c13Big(d))
+					if changed == 0 {
+						changed = i
+					} else {
+						changed = -1
+					}
+				}
+			}
+			blk.ObVals = append(blk.ObVals, delta.String())
+			blk.ObIdx = append(blk.ObIdx, changed)
 		}
 		blk.Dp = c13Amt(pre, "b_"+c13PoolAddr.String()+"_OLT")
 		if c13Amt(post, "b_"+c13PoolAddr.String()+"_OLT") != blk.Dp {
@@ -658,15 +758,37 @@ func c13RunChainS(seed int64, idx int, nblocks int, scenario int) c13Chain {
 		for _, k := range sortedKeys(post) {
 			if strings.HasPrefix(k, "rwaddr_") {
 				a := strings.TrimPrefix(k, "rwaddr_")
-				mi := "0"
-				if idx >= 2 {
-					mi = c13Amt(pre, fmt.Sprintf("rwz_%s_%d", a, idx-2))
+				cm := c13ChunksOf(pre, a)
+				is := []int64{}
+				for i := range cm {
+					is = append(is, i)
 				}
-				blk.MaturedIn = append(blk.MaturedIn, mi)
+				sort.Slice(is, func(x, y int) bool { return is[x] > is[y] })
+				cs := [][2]string{}
+				for n, i := range is {
+					if n < 6 {
+						cs = append(cs, [2]string{strconv.FormatInt(i, 10), cm[i]})
+					}
+				}
+				blk.Chunks = append(blk.Chunks, cs)
 				blk.ObMatured = append(blk.ObMatured, c13Sub(c13Amt(post, "rwcum_balance_"+a), c13Amt(pre, "rwcum_balance_"+a)))
+				cred := big.NewInt(0)
+				for _, v := range c13ChunksOf(post, a) {
+					cred.Add(cred, c13Big(v))
+				}
+				blk.ObCred = append(blk.ObCred, cred.String())
+				blk.ObMat = append(blk.ObMat, new(big.Int).Add(c13Big(c13Amt(post, "rwcum_balance_"+a)), c13Big(c13Amt(post, "rwcum_withdrawn_"+a))).String())
 			}
 		}
 		blk.ObConsumed = c13Sub(c13Amt(post, "rwcum_tdist"), c13Amt(pre, "rwcum_tdist"))
+		blk.ObTdist = c13Amt(post, "rwcum_tdist")
+		for _, k := range sortedKeys(pre) {
+			if strings.HasPrefix(k, "ri_") {
+				var iv rewards.Interval
+				must(json.Unmarshal([]byte(pre[k]), &iv))
+				blk.Ivs = append(blk.Ivs, [2]int64{iv.LastIndex, iv.LastHeight})
+			}
+		}
 		if ys, ok := c13Years(post["rwcum_ydist"]); ok {
 			for _, y := range ys {
 				blk.ObYears = append(blk.ObYears, [2]string{y.Dist, y.Till})
@@ -699,6 +821,25 @@ func c13RunChainS(seed int64, idx int, nblocks int, scenario int) c13Chain {
 		}
 		rep.EndBlock()
 		blk.AppHash = rep.Commit()
+		if relaunchAt > 0 && !relaunched && rep.H == relaunchAt {
+			exp := c13Export(rep, ro)
+			blk.DumpV = rep.H
+			if len(exp.RewardState.Intervals) == 1 {
+				blk.DumpIndex, blk.DumpHeight = exp.RewardState.Intervals[0].LastIndex, exp.RewardState.Intervals[0].LastHeight
+			}
+			rep.Close()
+			g2 := w.Genesis()
+			base := g.Customize
+			g2.Customize = func(st *consensus.AppState) {
+				base(st)
+				st.Rewards = exp
+			}
+			rep = NewReplica(g2, ReplicaOpts{NodeVal: w.Vals[0].Val})
+			rep.InitChain()
+			shadow = c13NewSide(ro, rep.BS)
+			times = map[int64]time.Time{}
+			relaunched = true
+		}
 		ch.Blocks = append(ch.Blocks, blk)
 	}
 	return ch
@@ -907,19 +1048,36 @@ func c13CoqBlk(b c13Blk) string {
 	for _, y := range b.ObYears {
 		oy = append(oy, fmt.Sprintf("(%s, %s)", c13Z(y[0]), c13Z(y[1])))
 	}
+	chs := []string{}
+	for _, cs := range b.Chunks {
+		ps := []string{}
+		for _, c := range cs {
+			ps = append(ps, fmt.Sprintf("(%s, %s)", c[0], c13Z(c[1])))
+		}
+		chs = append(chs, c13List(ps))
+	}
+	ivs := []string{}
+	for _, iv := range b.Ivs {
+		ivs = append(ivs, fmt.Sprintf("mkIvl %d %d", iv[0], iv[1]))
+	}
+	idxs := []string{}
+	for _, i := range b.ObIdx {
+		idxs = append(idxs, c13ZI(i))
+	}
 	ws := []string{}
 	for _, w := range b.WTxs {
 		ws = append(ws, fmt.Sprintf("mkWtx %s %s %s %s %s %s %s %s", c13Z(w.Value), c13Z(w.Bal), c13Z(w.Wd), c13Z(w.Pool),
 			c13B(w.CheckOk), c13B(w.DeliverOk), c13Z(w.Bal2), c13Z(w.Wd2)))
 	}
-	return fmt.Sprintf("mkBlk %d %s %s %s %s\n   %s %s\n   %s %s %s %d\n   %s\n   %s %s %s %s\n   %s %s\n   %s %s %s\n   %s %s",
+	return fmt.Sprintf("mkBlk %d %s %s %s %s\n   %s %s\n   %s %s %s %d\n   %s %s\n   %s %s %s %s\n   %s %s\n   %s %s %s\n   %s %s\n   %s %s %s %s %d %d %d",
 		b.H, c13B(b.Restart), c13ZI(b.T1), c13ZI(b.Tb), c13ZI(b.Te),
 		c13List(ys), c13Z(b.Pool),
 		c13List(vs), c13Z(b.Dp), c13List(ds), b.Prop,
-		c13ZList(b.MaturedIn),
+		c13List(chs), c13List(ivs),
 		c13B(b.PullOk), c13Z(b.Pull), c13B(b.ColdOk), c13Z(b.Cold),
 		c13List(oy), c13Z(b.ObConsumed),
-		c13ZList(b.ObVals), c13ZList(b.ObDelegs), c13ZList(b.ObMatured), c13List(ws), c13Z(b.ObDelegTotal))
+		c13ZList(b.ObVals), c13ZList(b.ObDelegs), c13ZList(b.ObMatured), c13List(ws), c13Z(b.ObDelegTotal),
+		c13List(idxs), c13ZList(b.ObCred), c13ZList(b.ObMat), c13Z(b.ObTdist), b.DumpV, b.DumpIndex, b.DumpHeight)
 }
 
 func c13CoqChain(c c13Chain) string {
@@ -1008,7 +1166,7 @@ func c13Main(args []string) int {
 	rep := c13Report{Hist: map[string]int{}}
 	chains := []c13Chain{}
 	if *directed {
-		for sc := 1; sc <= 2; sc++ {
+		for sc := 1; sc <= 3; sc++ {
 			chains = append(chains, c13RunChainS(*seed, -sc, 11, sc))
 		}
 	}
@@ -1108,6 +1266,16 @@ func c13Main(args []string) int {
 			}
 			for _, d := range b.CheckOnly {
 				inc("chain.tx." + strings.Fields(d)[0])
+			}
+			if b.DumpV > 0 {
+				k := "other"
+				switch {
+				case b.DumpV%c.Opts.Interval == 0:
+					k = "multiple_of_interval"
+				case (b.DumpV+1)%c.Opts.Interval == 0 || (b.DumpV-1)%c.Opts.Interval == 0:
+					k = "multiple+-1"
+				}
+				inc("chain.export_at." + k)
 			}
 			if b.ObDelegTotal != "0" {
 				inc("chain.delegators_credited")
